@@ -182,7 +182,15 @@ def frame_pair(node):
                     start = show(d.get("start"), maxdepth=10)
                     end = show(d.get("end"), maxdepth=10)
         return kind, start, end
-    return show(node["c"]), triple(node["t"]), triple(node["e"])
+    # polarity: `if !<sort empty> {sorted} else {unsorted}` is the same pair the other way round
+    c = node["c"]
+    neg = False
+    while c.get("k") in ("un", "paren"):
+        if c.get("k") == "un" and c["op"] == "!":
+            neg = not neg
+        c = c["e"]
+    a, b = triple(node["t"]), triple(node["e"])
+    return show(c), (b if neg else a), (a if neg else b)
 
 
 def r3(ctx, rep):
@@ -192,7 +200,7 @@ def r3(ctx, rep):
     f = syn.fn("gen_expr::translate_windowed", crate="prqlc")
     node = None
     for n in walk(f["body"]):
-        if n.get("k") == "if" and show(n["c"]) == "window.sort.is_empty()":
+        if n.get("k") == "if" and show(n["c"]).replace("(", "").replace(")", "").lstrip("!") == "window.sort.is_empty":
             node = n
     if node is None:
         raise AnchorMissing("translate_windowed: `if window.sort.is_empty()` building the default frame")
@@ -244,7 +252,7 @@ def r3(ctx, rep):
     Ag = __import__("alpha").Inliner(g)
     for n in walk(g["body"]):
         # (the test inlined: `sort.is_empty()` under any local name or none)
-        if n.get("k") == "if" and Ag.show(n["c"]) == "sort.is_empty()":
+        if n.get("k") == "if" and Ag.show(n["c"]).replace("(", "").replace(")", "").lstrip("!") == "sort.is_empty":
             node = n
     if node is None:
         # the pair may live in a private helper taking the test as its argument: follow `frame: helper(<test>)` of the Window literal
@@ -413,9 +421,10 @@ def r5(ctx, rep):
     # coalesce suppressed in windows
     to = syn.fn("operators::translate_operator", crate="prqlc")
     ok = False
-    for n in walk(to["body"]):
-        if n.get("k") == "if" and show(n["c"]) == "!ctx.query.window_function":
-            ok = "COALESCE(" in str(strs(n["t"]))
+    import guards as _g
+    for blk in _g.branches_when(to["body"], "ctx.query.window_function", False):
+        ok = ok or "COALESCE(" in str(strs(blk))
+    ok = ok and not any("COALESCE(" in str(strs(blk)) for blk in _g.branches_when(to["body"], "ctx.query.window_function", True))
     rep.check(ok, "coalesce-guard", "the empty-input COALESCE wrapper must be applied only outside window functions", file=to["file"], line=to["l"], fn=to["path"])
     # OVER text carries partition, order and frame
     tw = syn.fn("gen_expr::translate_windowed", crate="prqlc")
@@ -499,7 +508,8 @@ def r7(ctx, rep):
     if mm is None:
         raise AnchorMissing("reorder: match prev")
     take_arms = [a for a in mm["arms"] if "Take" in show(a["pat"])]
-    ok = len(take_arms) == 1 and show(take_arms[0].get("guard")) == "(infer_complexity(compute) == Complexity::Plain)" and show(take_arms[0]["body"]) == "true"
+    import C01
+    ok = len(take_arms) == 1 and C01.plain_only(take_arms[0].get("guard")) and show(take_arms[0]["body"]) == "true"
     rep.check(ok, "reorder:take", f"a compute may be hoisted above `take` only when it is Complexity::Plain; found guard {show(take_arms[0].get('guard')) if take_arms else None}: "
               "a windowed compute evaluated before LIMIT sees all rows instead of the taken ones", file=r["file"], line=mm["l"], fn=r["path"])
     wild = [a for a in mm["arms"] if pat_head(a["pat"]) == "_"]
